@@ -10,6 +10,7 @@ import (
 	"sort"
 	"strings"
 	"sync"
+	"sync/atomic"
 	"testing"
 	"time"
 
@@ -56,6 +57,9 @@ type Callback struct {
 type Config struct {
 	Apply     map[string]bool `json:"apply"`     // kind -> apply handler present (change add remove create delete)
 	Listeners map[string]int  `json:"listeners"` // resource class (m c u mm) -> number of listeners
+	// Warm: every resource name is looked up (Service.Resource) after the handlers are
+	// registered and mounted, and again between the listener registrations.
+	Warm bool `json:"warm,omitempty"`
 }
 
 // Case is a full case.
@@ -249,8 +253,27 @@ func (h *harness) build(cfg Config) *res.Service {
 		}
 	}
 	for _, class := range []string{"m", "c", "u"} {
-		opts := h.handlerOpts(cfg, types[class])
-		s.Handle(class+".$id", opts...)
+		s.Handle(class+".$id", h.handlerOpts(cfg, types[class])...)
+	}
+	// mounted mux
+	sub := res.NewMux("")
+	sub.Handle("$id", h.handlerOpts(cfg, "model")...)
+	s.Mount("mm", sub)
+	warm := func() {
+		if !cfg.Warm {
+			return
+		}
+		// resolve every resource between the registration steps
+		for _, class := range []string{"m", "c", "u", "mm"} {
+			for _, id := range []string{"1", "2", "abc"} {
+				if _, err := s.Resource("svc." + class + "." + id); err != nil {
+					panic("warm lookup: " + err.Error())
+				}
+			}
+		}
+	}
+	warm()
+	for _, class := range []string{"m", "c", "u"} {
 		ids := listenerIDs(cfg, class)
 		if len(ids) > 0 {
 			s.AddListener(class+".$id", h.listener(ids[0]))
@@ -260,17 +283,15 @@ func (h *harness) build(cfg Config) *res.Service {
 		}
 	}
 	s.AddHandler("other", res.Handler{Call: map[string]res.CallHandler{"x": func(r res.CallRequest) { r.OK(nil) }}, Listeners: others})
-	// mounted mux
-	sub := res.NewMux("")
-	sub.Handle("$id", h.handlerOpts(cfg, "model")...)
 	ids := listenerIDs(cfg, "mm")
+	warm()
 	if len(ids) > 0 {
 		sub.AddListener("$id", h.listener(ids[0]))
 	}
-	s.Mount("mm", sub)
 	if len(ids) > 1 {
 		s.AddListener("mm.$id", h.listener(ids[1]))
 	}
+	warm()
 	if len(ids) > 2 {
 		sub.AddListener("$id", h.listener(ids[2]))
 	}
@@ -687,6 +708,7 @@ func genCase() *rapid.Generator[Case] {
 		for _, k := range []string{"m", "c", "u", "mm"} {
 			c.Cfg.Listeners[k] = rapid.IntRange(0, 3).Draw(t, "listeners-"+k)
 		}
+		c.Cfg.Warm = rapid.IntRange(0, 3).Draw(t, "warm") == 0
 		n := rapid.IntRange(1, 4).Draw(t, "ncb")
 		for i := 0; i < n; i++ {
 			cb := Callback{Via: rapid.SampledFrom([]string{"with", "call"}).Draw(t, "via")}
@@ -790,13 +812,14 @@ type sub struct {
 
 func TestPropGroupBlocks(t *testing.T) {
 	rapid.Check(t, func(t *rapid.T) {
-		workers := rapid.SampledFrom([]int{1, 2, 3, 8}).Draw(t, "workers")
+		workers := rapid.SampledFrom([]int{1, 2, 3, 8, 24, 24}).Draw(t, "workers")
 		k := rapid.IntRange(4, 60).Draw(t, "nsub")
+		groupPool := rapid.SampledFrom([][]string{{"A", "B", "C"}, {"A", "B", "C", "D", "E", "F", "G", "H", "I", "J", "K", "L", "M", "N", "O", "P", "Q", "R", "S", "T"}}).Draw(t, "groups")
 		var subs []sub
 		for i := 0; i < k; i++ {
 			subs = append(subs, sub{
 				Via:   rapid.SampledFrom([]string{"with", "with", "call"}).Draw(t, "via"),
-				Group: rapid.SampledFrom([]string{"A", "B", "C"}).Draw(t, "group"),
+				Group: rapid.SampledFrom(groupPool).Draw(t, "group"),
 				ID:    rapid.SampledFrom([]string{"1", "2", "3"}).Draw(t, "id"),
 				N:     rapid.IntRange(1, 4).Draw(t, "n"),
 			})
@@ -824,6 +847,25 @@ func TestPropGroupBlocks(t *testing.T) {
 			r.OK(nil)
 			wg.Done()
 		}))
+		// a listener that counts what it hears and lingers a little, so that dispatches of
+		// different groups overlap
+		heard := make([]int32, k)
+		var inside, maxInside int32
+		s.AddListener("g.$grp.$id", func(e *res.Event) {
+			p, _ := e.Payload.(map[string]int)
+			atomic.AddInt32(&heard[p["cb"]], 1)
+			n := atomic.AddInt32(&inside, 1)
+			for {
+				m := atomic.LoadInt32(&maxInside)
+				if n <= m || atomic.CompareAndSwapInt32(&maxInside, m, n) {
+					break
+				}
+			}
+			for y := 0; y < 40 && atomic.LoadInt32(&inside) < 12; y++ {
+				runtimeGosched()
+			}
+			atomic.AddInt32(&inside, -1)
+		})
 		r, err := svc.Start(s, conn, nil)
 		if err != nil {
 			t.Fatalf("%v", err)
@@ -893,6 +935,14 @@ func TestPropGroupBlocks(t *testing.T) {
 		}
 		if got != total {
 			t.Fatalf("published %d events, expected %d", got, total)
+		}
+		for i, sb := range subs {
+			if h := atomic.LoadInt32(&heard[i]); int(h) != sb.N {
+				t.Fatalf("callback %d on group %s emitted %d events, its listener heard %d (up to %d listener calls overlapped, %d workers)", i, sb.Group, sb.N, h, maxInside, workers)
+			}
+		}
+		if maxInside > 8 {
+			ev.Label("more-than-8-overlapping-listener-calls")
 		}
 		b, _ := json.Marshal(subs)
 		ev.Case(multi && workers > 1, evid.Hash(string(b), workers), "group-blocks")
